@@ -147,6 +147,14 @@ def _bit_names(f, testnode):
                     if isinstance(s_, ast.Assign) and isinstance(s_.targets[0], ast.Name):
                         assigned.append(s_.targets[0].id)
     nodevar = assigned[0] if assigned and len(set(assigned)) == 1 else None
+    if nodevar is None:
+        # `sibling, cur = (left, right)` in both arms: the node variable is the one the loop reads the db with
+        for lp in walk_shallow(f.node):
+            if isinstance(lp, (ast.For, ast.While)):
+                for n in ast.walk(lp):
+                    if isinstance(n, ast.Subscript) and isinstance(n.ctx, ast.Load) and isinstance(n.slice, ast.Name) \
+                            and isinstance(n.value, ast.Attribute) and n.value.attr == "db":
+                        nodevar = n.slice.id
     return bitvar, nodevar
 
 
@@ -179,6 +187,9 @@ def sib5(ctx, pid):
                 tg = ctx.R.resolve_call(ev.node, f, count=False)[0]
                 if tg.kind == "cmeth" and tg.meth == "append":
                     apps.append(eng.ev(ev.node.args[0], f, st))
+            if ev.k == "stmt" and isinstance(ev.node, ast.AugAssign) and isinstance(ev.node.op, ast.Add) and isinstance(ev.node.target, ast.Name) \
+                    and isinstance(ev.node.value, ast.List) and len(ev.node.value.elts) == 1:
+                apps.append(eng.ev(ev.node.value.elts[0], f, st))  # xs += [x] is xs.append(x)
         nh = st.env.get(nodevar)
         if not apps or nh is None or nh[0] != "slice" or apps[0][0] != "slice":
             probs.append("cannot interpret the descent step")
